@@ -194,6 +194,7 @@ type decoded struct {
 	size      int64
 	announced int64
 	cleanup   func()
+	img       []byte // whole image (lib route)
 }
 
 // buildAndDecode produces the image by the case's route and decodes it with the independent reader.
@@ -248,7 +249,7 @@ func buildAndDecode(c isoCase, st *hx.Stats) (*decoded, error) {
 		if perr != nil {
 			v.Problems = append(v.Problems, isoread.Problem{Clause: "image-parse", Msg: perr.Error()})
 		}
-		return &decoded{vol: v, size: int64(len(img)), announced: s.Size(), cleanup: fx.Close}, nil
+		return &decoded{vol: v, size: int64(len(img)), announced: s.Size(), cleanup: fx.Close, img: img}, nil
 	case "net":
 		tg, err := hx.StartInproc(fx.Tmp, hx.InprocOpts{})
 		if err != nil {
@@ -439,7 +440,68 @@ func runC07(c isoCase, st *hx.Stats) error {
 		return hx.Failf("image-creation", "image creation failed for a tree of portable, distinct names (route %s)", c.Route)
 	}
 	defer d.cleanup()
-	return compareTree(d.vol, c.tree(), 64<<20)
+	if err := compareTree(d.vol, c.tree(), 64<<20); err != nil {
+		return err
+	}
+	if c.PS3 {
+		// libarchive guesses the format from the first bytes: the PS3 system area (sector range table in sector 0)
+		// makes it try LZMA and give up, which says nothing about the ISO 9660 volume
+		return nil
+	}
+	return bsdtarAgrees(d.img, c.tree(), st)
+}
+
+// bsdtarAgrees: a second, unrelated reader (libarchive, when installed) must list exactly the source tree.
+func bsdtarAgrees(img []byte, tree *hx.Node, st *hx.Stats) error {
+	bin, err := exec.LookPath("bsdtar")
+	if err != nil || img == nil || len(img) > 48<<20 {
+		return nil
+	}
+	f, err := os.CreateTemp(os.Getenv("VERIF_SCRATCH"), "bsdtar*.iso")
+	if err != nil {
+		return nil
+	}
+	defer os.Remove(f.Name())
+	if _, err := f.Write(img); err != nil {
+		f.Close()
+		return nil
+	}
+	f.Close()
+	cmd := exec.Command(bin, "-tf", f.Name())
+	cmd.Env = []string{"LC_ALL=C.UTF-8", "PATH=/usr/bin:/bin"}
+	out, err := cmd.Output()
+	if err != nil {
+		msg := ""
+		if ee, ok := err.(*exec.ExitError); ok {
+			msg = head(string(ee.Stderr), 300)
+		}
+		return hx.Failf("second-reader", "bsdtar cannot read the image: %v %s", err, msg)
+	}
+	got := map[string]bool{}
+	for _, l := range strings.Split(strings.TrimRight(string(out), "\n"), "\n") {
+		l = strings.TrimSuffix(l, "/")
+		if l != "" && l != "." {
+			got[l] = true
+		}
+	}
+	want := map[string]bool{}
+	tree.Walk(func(rel string, n *hx.Node) {
+		if rel != "" && (n.Kind == "dir" || n.Kind == "file") {
+			want[rel] = true
+		}
+	})
+	for p := range want {
+		if !got[p] {
+			return hx.Failf("second-reader", "bsdtar does not list %q of the source tree (it lists %d entries, the tree has %d)", p, len(got), len(want))
+		}
+	}
+	for p := range got {
+		if !want[p] {
+			return hx.Failf("second-reader", "bsdtar lists %q which the source tree has not", p)
+		}
+	}
+	st.Label("listing confirmed by bsdtar")
+	return nil
 }
 
 func treeKey(tree *hx.Node) string {
